@@ -23,7 +23,7 @@ ALL_DEVS = ["FirstFromOnly"]
 CFG = """SPECIFICATION %(spec)s
 CONSTANTS
   Devs = {%(devs)s}
-  Families = {"A", "B", "C"}
+  Families = {"A", "B", "C", "D", "E", "F"}
   Gen = %(gen)s
 %(tail)s
 """
@@ -79,7 +79,7 @@ def nontrivial(r):
     xs = [r["mf"]["a"]] + ([f["x"]["a"]] if f["x"]["a"] != "-" else []) + ([f["y"]["a"]] if f["y"]["a"] != "-" else [])
     return r["auth"]["a"] == "none" or any(x != own for x in xs) or r["sender"]["a"] != "-" or \
         any(it["v"] != "plain" for it in (r["auth"], r["mf"], f["x"])) or not r["chk"] or \
-        r["sasl"]["az"] != "empty" or r["nb"] not in ("absent", "none")
+        r["sasl"]["az"] != "empty" or r["nb"] not in ("absent", "none") or r["act"] != "default" or r["fam"] in "EF"
 
 
 def run(ctx, replay):
@@ -129,7 +129,8 @@ def run(ctx, replay):
         # header rules are reached; the other half spreads over the other envelope senders
         def own_mf(x):
             return x["mf"]["a"] == ("peer" if x["auth"]["a"] == "V" else "self")
-        rows_ab = [x for x in rows if x["fam"] != "C"]
+        rows_ab = [x for x in rows if x["fam"] in ("A", "B")]
+        rows_def = [x for x in rows if x["fam"] in ("D", "E", "F")]   # small families: always run completely
         rows_c = [x for x in rows if x["fam"] == "C"]
         rows_own = [x for x in rows_ab if own_mf(x)]
         rows_oth = [x for x in rows_ab if not own_mf(x)]
@@ -139,8 +140,9 @@ def run(ctx, replay):
         # family C (session around the check): one row of every (table, user, mechanism, authzid, neighbour,
         # check_header, envelope sender) combination at least
         c_direct = [x for x in rows_c if directable(x)]
-        direct = [x for x in rows if directable(x)] if thorough else sample(8000) + stratified(ctx.rng, c_direct, 1500)
-        e2e = rows if thorough else sample(1200) + stratified(ctx.rng, rows_c, 3000)
+        direct = [x for x in rows if directable(x)] if thorough else \
+            sample(7000) + stratified(ctx.rng, c_direct, 1200) + [x for x in rows_def if directable(x)]
+        e2e = rows if thorough else sample(1000) + stratified(ctx.rng, rows_c, 2600) + rows_def
         items = [{"via": "direct", "in": x} for x in direct] + [{"via": "endpoint", "in": x} for x in e2e]
         for i, it in enumerate(items):
             it["id"] = i + 1
@@ -157,11 +159,13 @@ def run(ctx, replay):
     # verdict is clean are judged (a mutant may have got the original wrong).
     selftest = {}
     if not replay:
-        rej = [e for e in events if e["via"] == "direct" and not e["out"]["accepted"] and e["in"]["auth"]["a"] == "none"][:5]
-        acc = [e for e in events if e["via"] == "direct" and e["out"]["accepted"] and e["in"]["from"]["layout"] == "one"][:5]
+        rej = [e for e in events if e["via"] == "direct" and not e["out"]["accepted"] and e["in"]["auth"]["a"] == "none"
+               and e["in"]["act"] == "default"][:5]
+        acc = [e for e in events if e["via"] == "direct" and e["out"]["accepted"] and e["in"]["from"]["layout"] == "one"
+               and e["in"]["act"] == "default"][:5]
         extra = []
         for i, e in enumerate(rej):
-            extra.append(dict(e, t=900001 + i, out=dict(e["out"], accepted=True)))
+            extra.append(dict(e, t=900001 + i, out=dict(e["out"], accepted=True, flagged=False)))
             selftest[900001 + i] = ("viol", e["t"])
         for i, e in enumerate(acc):
             extra.append(dict(e, t=900101 + i, out=dict(e["out"], accepted=False)))
@@ -249,7 +253,8 @@ def run(ctx, replay):
     ctx.cov["rule"] = ("rows = the complete input space of Authz.tla printed by TLC (family A: 6 table kinds x user x 7 MAIL FROM "
                        "mailboxes x 108 From layouts/styles x 4 Sender; family B: spelling variants x all 7 "
                        "normalisation settings; family C: null/postmaster envelope senders x check_header x SASL mechanism/authzid x "
-                       "neighbour check); thorough runs every row through the endpoint and the SASL/neighbour-free ones on the check, "
+                       "neighbour check; D: action directives plain/custom reply; E: ToLower-only twins after an entitled envelope "
+                       "sender x every normalisation; F: table.chain mappings); thorough runs every row through the endpoint and the SASL/neighbour-free ones on the check, "
                        "quick a stratified seeded sample of both; non-trivial = unauthenticated, or some address other "
                        "than the user's own, or a Sender, or a non-canonical spelling")
     ctx.cov["open_deviations"] = open_devs
@@ -263,7 +268,8 @@ def run(ctx, replay):
         "the harness only renders identifiers to strings",
         "From/Sender header sections are rendered by the harness from the abstract layout (RFC 5322 syntax: "
         "angle-addr, display names, encoded words, comments, folding, groups, repeated fields)",
-        "fail actions of the check are the defaults (reject); with check_header no only the envelope clause is demanded",
+        "where the operator configured a quarantine action, a delivery carrying the quarantine flag counts as the refusal; "
+        "with check_header no only the envelope clause is demanded",
         "the authenticated user of a row is the account whose password the client presented (SASL authentication identity)",
         "neighbour check = harness/scripted check.verif_scripted in the same check block, failing at sender and body stage",
         "endpoint rows: credentials in auth.pass_table (bcrypt cost 4, one password per account), auth_map_normalize auto, real PLAIN/LOGIN exchanges",
@@ -277,12 +283,14 @@ META = {
     "technique": "TLA+ decision-table spec Authz.tla: TLC enumerates the input space and checks the documented rule against "
                  "the declarative property on every row; the rows drive the real check.authorize_sender and the real "
                  "submission endpoint; AuthzTrace.tla evaluates the property on what the code answered",
-    "text": "TLC enumerates all 124,080 rows (entitlement tables identity/list/domain wildcard/'*'/absent/prepare_email, "
+    "text": "TLC enumerates all 127,044 rows (entitlement tables identity/list/domain wildcard/'*'/absent/prepare_email, "
             "all 7 normalisation settings, user spellings, MAIL FROM, From layouts incl. several fields, groups, display-name "
             "and encoded-word tricks, Sender; null and postmaster envelope senders, check_header yes/no, SASL mechanism and "
-            "authorization identity, a quarantining/rejecting neighbour check) and checks Rule against Prop on each; thorough "
+            "authorization identity, a quarantining/rejecting neighbour check, action directives with custom SMTP replies, "
+            "mailboxes that only strings.ToLower confuses (U+0130) after an entitled envelope sender, table.chain mappings) "
+            "and checks Rule against Prop on each; thorough "
             "runs every row through the real endpoint and every row without SASL/neighbour dimension on the check alone, "
-            "quick a stratified seeded sample (9500 + 4200); TLC evaluates "
+            "quick a stratified seeded sample (about 10,400 + 6,600, the small families completely); TLC evaluates "
             "Prop/Rule on the recorded decisions.",
     "note": "One-sided (safety) property: an over-strict refusal is drift, not a violation. Header sections are rendered by "
             "the harness; the spelling equivalence of addresses is an assumption of the model.",
